@@ -29,6 +29,8 @@ import PandoraModel.Model.CrossCheck
 import PandoraModel.Model.Cbca
 import PandoraModel.Model.Locality
 import PandoraModel.Model.Blocks
+import PandoraModel.Model.Interp
+import PandoraModel.Model.Confidence
 
 /-! ## the criteria model fed with the matching-cost model (moved from `Properties/C04C02.lean`) -/
 
@@ -269,6 +271,82 @@ def aggRow (K : RunCfg) (G : AggCfg) (x : MC.Input) (r c : Nat) : List Val :=
 def fullRunCbca (K K' : RunCfg) (G : AggCfg) (V : CrossCheck.Variant) (CP : CrossCheck.Params) (x : MC.Input) :
     Option (Nat → Nat → CrossCheck.PixOut) :=
   fullRunR K K' V CP x (aggRow K G x) (aggRow K' G (swapInput x))
+
+/-! ## the extended run: any tail of refinements and filters (repeated steps included), both cross-checks, filling,
+    the ambiguity band (new; executed against `pandora.run` by the driver, no locality theorem yet) -/
+
+/-- a step of the tail of the pipeline, after winner-takes-all: `refinement[.k]`, `filter[.k]` (median or bilateral) -/
+inductive TailStep where
+  | refine (P : Refinement.Params)
+  | median (fs : Nat) (s : Blocks.Split)
+  | bilateral (wts : Filter.Weights) (w : Nat) (s : Blocks.Split)
+
+/-- one step of the tail on the current (disparity, flags) maps; the refinement reads the cost rows `R` (the cost
+    volume is not modified by the tail), the filters do not write the flags -/
+def tailStep (K : RunCfg) (x : MC.Input) (R : Nat → Nat → List Val) (m : Maps) : TailStep → Option Maps
+  | .refine P =>
+    match Refinement.loopRefinement P (Blocks.tabulate x.L.rows x.L.cols fun r c =>
+        ⟨R r c, m.disp r c, m.flag r c,
+          ((x.dminG (r : Int) (c : Int) : Int) : Rat), ((x.dmaxG (r : Int) (c : Int) : Int) : Rat)⟩) with
+    | .ok o =>
+      some ⟨fun r c => match gridImg o ((r : Int), (c : Int)) with | some y => y.d | none => .nan,
+            fun r c => match gridImg o ((r : Int), (c : Int)) with | some y => y.flag | none => 0⟩
+    | .err _ => none
+  | .median fs s => some ⟨Filter.medianFilterDisparity s K.invalidMask fs x.L.rows x.L.cols m.flag m.disp, m.flag⟩
+  | .bilateral wts w s =>
+    some ⟨Filter.bilateralFilterDisparity s wts K.invalidMask w x.L.rows x.L.cols m.flag m.disp, m.flag⟩
+
+/-- the maps after the whole tail, starting from the map of `to_disp` and the criteria flags -/
+def afterTailFrom (K : RunCfg) (x : MC.Input) (R : Nat → Nat → List Val) : List TailStep → Maps → Option Maps
+  | [], m => some m
+  | s :: rest, m => (tailStep K x R m s).bind (afterTailFrom K x R rest)
+
+def afterTail (K : RunCfg) (x : MC.Input) (R : Nat → Nat → List Val) (tail : List TailStep) : Option Maps :=
+  afterTailFrom K x R tail ⟨wtaMapR K x R, C04C02.composedMask x⟩
+
+/-- the tail of the run of `fullRunR`: the optional refinement, then the optional median filter -/
+def tailOf (K : RunCfg) : List TailStep :=
+  (if K.doRefine then [TailStep.refine K.refine] else []) ++ (if K.doMedian then [TailStep.median K.fs K.sM] else [])
+
+/-- a cross-checked map as a map of the filling model -/
+def dmapOfOut (rows cols : Nat) (o : CrossCheck.Out) : Interp.DMap :=
+  { rows := rows, cols := cols,
+    disp := fun r c => (o.disp.getD r []).getD c .nan,
+    flag := fun r c => (o.mask.getD r []).getD c 0 }
+
+/-- how the validation step fills: nothing, or `interpolated_disparity` (variant of the kernels read in the source,
+    `offset_row_col` for the `mask_border` of mc-cnn) -/
+structure FillCfg where
+  meth : Option Interp.Method
+  v : Interp.Variant
+  off : Nat
+
+def fillOf (F : FillCfg) (m : Interp.DMap) : Interp.DMap :=
+  match F.meth with
+  | none => m
+  | some meth => Interp.interpolate F.v meth F.off m
+
+/-- **The extended run**: for both sides the tail on the cost rows, then `validation_run`: the left map checked against
+    the right one, the right map checked against the checked left one (`CrossCheck.validationRun`), then — after both
+    checks — the filling of the left and of the right map.  `none` when a refinement raised. -/
+def extRunR (K K' : RunCfg) (tail tail' : List TailStep) (V : CrossCheck.Variant) (CP CP' : CrossCheck.Params)
+    (F : FillCfg) (x : MC.Input) (R R' : Nat → Nat → List Val) : Option (Interp.DMap × Interp.DMap) :=
+  match afterTail K x R tail, afterTail K' (swapInput x) R' tail' with
+  | some A, some B =>
+    let rows := x.L.rows
+    let cols := x.L.cols
+    let lr := CrossCheck.validationRun V CP CP' (leftDataset rows cols A) (leftDataset rows cols B)
+    some (fillOf F (dmapOfOut rows cols lr.1), fillOf F (dmapOfOut rows cols lr.2))
+  | _, _ => none
+
+/-- the cost rows of a chain as a volume of the confidence model -/
+def volumeOf (rows cols : Nat) (R : Nat → Nat → List Val) : Confidence.Volume := Blocks.tabulate rows cols R
+
+/-- the band of a `cost_volume_confidence` step with method `ambiguity` on the cost rows entering winner-takes-all
+    (the step writes a band and nothing else: the later stages of the run do not depend on it) -/
+def ambiguityOf (etas : List Rat) (normalization : Bool) (x : MC.Input) (R : Nat → Nat → List Val) :
+    Option (Grid Val) :=
+  Confidence.ambiguityBand etas normalization 1 (volumeOf x.L.rows x.L.cols R)
 
 /-! ## decidable forms of the hypotheses of `run_crop_eq_whole` (new; `Properties/C13RunBool.lean` proves that they
     imply the hypotheses) -/
